@@ -855,7 +855,12 @@ class Vector(AutoSerialize):
         TypeError
             If value is not a list or contains non-string values.
         """
-        self._fields = validate_fields(value)
+        fields = validate_fields(value)
+        if hasattr(self, "_fields") and len(fields) != len(self._fields):
+            raise ValueError(
+                f"Length of fields ({len(fields)}) must match num_fields ({len(self._fields)})"
+            )
+        self._fields = fields
 
     @property
     def units(self) -> List[str]:
